@@ -39,6 +39,12 @@ var (
 // one, and to inject disk errors.
 var Hook func(op, path string) error
 
+// Short, returned by Hook for a write, makes the facade perform the first half
+// of the write and then fail with Err (a torn write).
+type Short struct{ Err error }
+
+func (s Short) Error() string { return s.Err.Error() }
+
 // After is called after a successful fsync of a file.
 var After func(op, path string)
 
@@ -132,6 +138,10 @@ func (f *File) Truncate(size int64) error {
 
 func (f *File) WriteAt(b []byte, off int64) (int, error) {
 	if err := pre("write", f.f.Name()); err != nil {
+		if sh, ok := err.(Short); ok {
+			n, _ := f.f.WriteAt(b[:len(b)/2], off)
+			return n, sh.Err
+		}
 		return 0, err
 	}
 	return f.f.WriteAt(b, off)
@@ -139,6 +149,10 @@ func (f *File) WriteAt(b []byte, off int64) (int, error) {
 
 func (f *File) Write(b []byte) (int, error) {
 	if err := pre("write", f.f.Name()); err != nil {
+		if sh, ok := err.(Short); ok {
+			n, _ := f.f.Write(b[:len(b)/2])
+			return n, sh.Err
+		}
 		return 0, err
 	}
 	return f.f.Write(b)
